@@ -520,14 +520,10 @@ class MPSBackendImpl:
         basename = self.autosave_file
         with open(basename.with_suffix(".new"), "wb") as file_handle:
             pickle.dump(self, file_handle)
-        if basename.is_file():
-            os.rename(basename, basename.with_suffix(".bak"))
-
-        os.rename(basename.with_suffix(".new"), basename)
+        # os.replace is atomic on POSIX and Windows: at every instant the advertised
+        # file is either the previous or the new complete snapshot.
+        os.replace(basename.with_suffix(".new"), basename)
         autosave_filesize = os.path.getsize(self.autosave_file) / 1e6
-
-        if basename.with_suffix(".bak").is_file():
-            os.remove(basename.with_suffix(".bak"))
 
         self.last_save_time = time.time()
 
